@@ -42,17 +42,17 @@ import (
 // pipes=<Pipe.Run goroutines> sched=<running|exited:kind> listed=<0|1>`.
 
 type lifeSess struct {
-	rec     *vh.Rec
-	pools   map[string]*vh.FakePool
-	order   []string
-	miner   *vh.FakeMiner
-	alloc   *allocator.Allocator
-	ctx     context.Context
-	cancel  context.CancelFunc
-	exit    chan error
-	exited  string
-	minerUp bool
-	shut    bool
+	rec      *vh.Rec
+	pools    map[string]*vh.FakePool
+	order    []string
+	miner    *vh.FakeMiner
+	alloc    *allocator.Allocator
+	ctx      context.Context
+	cancel   context.CancelFunc
+	exit     chan error
+	exited   string
+	minerUp  bool
+	shut     bool
 	cbN      int  // tasks handed to the scheduler so far
 	reportCb bool // put the task credit on record (histories compared with the model)
 }
@@ -329,7 +329,12 @@ func lifeExec(tr *vh.Transcript, ops []string) {
 			synctest.Wait()
 			s.miner.Send(`{"id":3,"method":"mining.authorize","params":["acct.rig7",""]}`)
 			after(op)
-		case "task":
+		case "task", "taskx":
+			if f[0] == "taskx" {
+				// the miner is lost in the middle of the change of destination: it hangs up on the first line of the re-send
+				s.miner.CloseOn.Store("mining.set_version_mask")
+				s.minerUp = false
+			}
 			var ms int64
 			fmt.Sscan(f[3], &ms)
 			id := f[1]
@@ -571,6 +576,10 @@ func lifeGen(r *vh.Rng) []string {
 		// is finished), a share forwarded there stays unanswered, and the next task's change of destination waits for it
 		ops = append(ops, fmt.Sprintf("task c%d pb 2000", n+1), "poolclose pb", "advance 2100", fmt.Sprintf("msubmit %d pa-j1", id+90),
 			fmt.Sprintf("task c%d pc 30000", n+2))
+	}
+	if r.Bool(10) {
+		// the miner is lost in the middle of a change of destination (it hangs up on the first line of the re-send)
+		ops = append(ops, fmt.Sprintf("taskx c%d pb 30000", n+5), "advance 100", "advance 5000", "advance 40000")
 	}
 	return ops
 }
